@@ -5,6 +5,7 @@ import (
 	"fmt"
 	"net"
 	"strings"
+	"time"
 
 	"github.com/cloudwego/kitex/pkg/discovery"
 	"github.com/cloudwego/kitex/pkg/rpcinfo"
@@ -23,7 +24,13 @@ import (
 func init() {
 	// the resolver is served by the manager: a lookup of an endpoint set that gives up while the response that supplies
 	// it is being handled must leave the name subscribed (later pushes are served); then the resolver cases proper
-	props["C10"] = func(c *ctx) { runSysWait(c, []string{"eds", "cds"}); runC10(c) }
+	props["C10"] = func(c *ctx) {
+		runSysWait(c, []string{"eds", "cds"})
+		for i := 0; i < 2*c.budget; i++ {
+			c10History(c)
+		}
+		runC10(c)
+	}
 }
 
 type gEndpoint struct {
@@ -217,3 +224,124 @@ func runC10(c *ctx) {
 }
 
 var _ = net.JoinHostPort
+
+// c10History: the resolver on the REAL manager across an update history of clusters and load assignments: partial
+// endpoint pushes for different names arriving back to back while an update handler is slow, and pushes that re-use
+// the version string of the previous push (a restarted control plane) for new content. Every resolution returns exactly
+// what the control plane listed last for that cluster.
+func c10History(c *ctx) {
+	w, err := newWorld(worldOpts{ndsNotRequired: true, fetchTimeout: 3 * time.Second})
+	if err != nil {
+		fmt.Println("C10: world:", err)
+		return
+	}
+	defer w.close()
+	useBackend(w.m)
+	r := c.rng
+	mkCLA := func(name string, tag int) *gCLA {
+		a := &gCLA{Name: name}
+		nl := 1 + r.intn(2)
+		for i := 0; i < nl; i++ {
+			var loc []gEndpoint
+			for j := 0; j < 1+r.intn(3); j++ {
+				loc = append(loc, gEndpoint{fmt.Sprintf("10.%d.%d.%d", tag, i, j+1), 8080, 1 + r.intn(5)})
+			}
+			a.Localities = append(a.Localities, loc)
+		}
+		return a
+	}
+	clusters := map[string]*gCluster{
+		"cluster-a": {Name: "cluster-a", Type: "EDS", ServiceName: "svc-eds"},
+		"cluster-b": {Name: "cluster-b", Type: "EDS", ServiceName: "other-eds"},
+	}
+	current := map[string]*gCLA{}
+	ver := 0
+	pushEDS := func(v string, as ...*gCLA) {
+		var anys []*anypb.Any
+		for _, a := range as {
+			anys = append(anys, mustAny(a.proto()))
+			current[a.Name] = a
+		}
+		ver++
+		w.feed(mkResp(urlOf("eds"), v, fmt.Sprintf("en%d", ver), anys))
+	}
+	pushCDS := func(v string, names ...string) {
+		var anys []*anypb.Any
+		for _, n := range names {
+			anys = append(anys, mustAny(clusters[n].proto()))
+		}
+		ver++
+		w.feed(mkResp(urlOf("cds"), v, fmt.Sprintf("cn%d", ver), anys))
+	}
+	waitInterest := func(rt, name string) bool {
+		return w.waitFor(func() bool {
+			for _, n := range w.m.VerifInterest()[rtOf(rt)] {
+				if n == name {
+					return true
+				}
+			}
+			return false
+		}, 3*time.Second)
+	}
+	resolve := func(desc, step string) {
+		var res discovery.Result
+		var rerr error
+		p, pmsg := recoverTo(func() { res, rerr = xdssuite.NewXDSResolver().Resolve(context.Background(), desc) })
+		o := obj{"panic": p, "panicMsg": pmsg, "err": classifyResolveErr(rerr)}
+		if !p && rerr == nil {
+			o["instances"] = instJSON(res.Instances)
+			o["cacheable"] = res.Cacheable
+			o["key"] = res.CacheKey
+		}
+		to := rpcinfo.NewEndpointInfo("the-service", "m", nil, nil)
+		o["target"] = xdssuite.NewXDSResolver().Target(context.Background(), to)
+		nj := obj{}
+		for nm, a := range current {
+			nj[nm] = a.json()
+		}
+		c.count("history.resolutions", 1)
+		c.emit(obj{"op": "resolve", "desc": desc, "cluster": clusters[desc].json(), "named": nj, "tagged": false, "history": step, "obs": o})
+	}
+	// a. cluster-a: subscribed by the resolution itself, then its endpoints
+	done := make(chan struct{})
+	go func() { resolve("cluster-a", "first resolution of cluster-a"); close(done) }()
+	if !waitInterest("cds", "cluster-a") {
+		return
+	}
+	pushCDS("1", "cluster-a")
+	if !waitInterest("eds", "svc-eds") {
+		return
+	}
+	pushEDS("1", mkCLA("svc-eds", 1))
+	<-done
+	// b. cluster-b likewise (the cluster response is complete: both clusters)
+	done = make(chan struct{})
+	go func() { resolve("cluster-b", "first resolution of cluster-b"); close(done) }()
+	if !waitInterest("cds", "cluster-b") {
+		return
+	}
+	pushCDS("2", "cluster-a", "cluster-b")
+	if !waitInterest("eds", "other-eds") {
+		return
+	}
+	pushEDS("2", mkCLA("other-eds", 2))
+	<-done
+	// c. an update handler of the endpoint type is slow; three partial pushes for different names arrive back to back
+	w.m.RegisterXDSUpdateHandler(xdsresource.EndpointsType, func(map[string]xdsresource.Resource) { time.Sleep(15 * time.Millisecond) })
+	pushEDS("3", mkCLA("svc-eds", 3))
+	pushEDS("4", mkCLA("other-eds", 4))
+	pushEDS("5", mkCLA("svc-eds", 5))
+	w.settle()
+	time.Sleep(120 * time.Millisecond)
+	resolve("cluster-b", "after three back-to-back partial endpoint pushes (a slow update handler)")
+	resolve("cluster-a", "after three back-to-back partial endpoint pushes (a slow update handler)")
+	// d. a push that re-uses the version string of the previous one for new content
+	pushEDS("5", mkCLA("svc-eds", 6))
+	w.settle()
+	time.Sleep(60 * time.Millisecond)
+	resolve("cluster-a", "after a push that re-uses the previous version string for new endpoints")
+	pushEDS("5", mkCLA("other-eds", 7))
+	w.settle()
+	time.Sleep(60 * time.Millisecond)
+	resolve("cluster-b", "after a push that re-uses the previous version string for new endpoints")
+}
